@@ -146,7 +146,7 @@ Row == LET a == A  hs == HintSeq
            sat == IF judged THEN SatIdx(a) ELSE {}
            sf == Vec(LegacyFaithful, a) IN
    [t |-> "row", i |-> ia, h |-> a, wk |-> WK(a), origin |-> Origin(a), nkids |-> Len(Kids(a)), nargs |-> ArgsLen(a),
-    argskids |-> ArgsAreKids(LegacyFaithful, a), argsign |-> ArgsIgn(a), ign |-> IgnX(a), hasany |-> HasAny(a),
+    argskids |-> ArgsAreKids(LegacyFaithful, a), argsign |-> ArgsIgn(LegacyFaithful, a), ign |-> IgnX(LegacyFaithful, a), hasany |-> HasAny(a),
     judged |-> judged, sat |-> SetToSeq(sat),
     subF |-> [j \in HS |-> Code(sf[j])],
     subX |-> LET v == Vec(LegacyFixed, a) IN [j \in HS |-> Code(v[j])],
